@@ -317,9 +317,9 @@ def main(chk: Check) -> None:
         chk.extra[f'model_{name}'] = {'environments': len(space['envs']), 'statements': len(space['events'])}
         if name == 'deep':
             continue
-        sessions += sessions_from_space(space, 'A' + name[0], 150 if quick else None, 2 if quick else 8, rnd)
+        sessions += sessions_from_space(space, 'A' + name[0], 200 if quick else None, 3 if quick else 8, rnd)
     run_and_judge(chk, [('A', sessions, False),
-                        ('B', random_sessions(800 if quick else 12000, random.Random(f'x08-random-{chk.seed}')), True)],
+                        ('B', random_sessions(1500 if quick else 12000, random.Random(f'x08-random-{chk.seed}')), True)],
                   40 if quick else 80)
     # the model-checking runs are exhaustive within their bounds; the sessions run through meson are a seeded sample
     # (thorough: every exported environment, 8 sessions each)
